@@ -899,6 +899,41 @@ class Terms(object):
             for x in split_cond(*c):
                 if x not in out:
                     out.append(x)
+        # the far side of a test with several operands: where every way in
+        # is the false edge of an operand of one ``a and b`` (the true edge
+        # of an operand of one ``a or b``), the whole test is known false
+        # (true) - no single operand's edge dominates, the disjunction does
+        for nid in sorted(dom):
+            J = self.cfg.nodes[nid]
+            if J is node and J.kind == "assume":
+                continue
+            ps_ = [p_ for p_ in J.pred if p_.id in self.reached] \
+                if self.dead else list(J.pred)
+            if len(ps_) < 2 or not all(
+                    p_.kind == "assume" and p_.ast is not None
+                    for p_ in ps_):
+                continue
+            B = getattr(ps_[0].ast, "_parent", None)
+            if not isinstance(B, ast.BoolOp) or not all(
+                    getattr(p_.ast, "_parent", None) is B for p_ in ps_):
+                continue
+            want_pol = not isinstance(B.op, ast.And)
+            if not all(p_.polarity == want_pol for p_ in ps_) or \
+                    sorted(id(p_.ast) for p_ in ps_) != sorted(
+                        id(v_) for v_ in B.values):
+                continue
+            first = min(ps_, key=lambda p_: p_.id)
+            try:
+                c = self.cond(B, first, want_pol)
+            except AnalysisError:
+                continue
+            if any(st[0] in ("phi", "mu", "rec", "attrv", "opaque", "new")
+                   for st in subterms(c[0])) and not all(
+                    self.flow.fact_valid(p_, node) for p_ in ps_):
+                continue
+            for x in split_cond(*c):
+                if x not in out:
+                    out.append(x)
         # inside a loop over a filtered collection ([x for x in it if c(x)])
         # the filter holds for the element in hand
         st_ = getattr(node, "ast", None)
